@@ -4,7 +4,7 @@
    tick): quantifying over all h quantifies over every interleaving of the ingest goroutine
    with the watermark/trigger goroutine at lock granularity. *)
 From Coq Require Import Lia Sorted.
-From SV Require Import Spec.QuietSpec Proofs.QuietProofs Spec.WinSpec Proofs.TumblingPTSpec.
+From SV Require Import Spec.QuietSpec Proofs.QuietProofs Spec.WinSpec Proofs.TumblingPTSpec Proofs.TumblingSpecSound.
 From SV Require Import Model.Tumbling Proofs.TumblingProofs Proofs.TumblingComplete Proofs.TumblingPT.
 
 (* every batch is a size-aligned half-open interval [k*size,(k+1)*size) and holds only rows that
@@ -61,6 +61,18 @@ Theorem C01_processing_time_membership : forall c h,
     forall r, In r (b_rows b) -> b_start b <= rts r < b_end b.
 Proof. intros c h Hs Hok. exact (pt_membership c Hs h pst0 (InvP_0 c) Hok). Qed.
 Print Assumptions C01_processing_time_membership.
+
+(* the executable event-time checker the harness applies to the real window's trace (Spec/WinSpec.v chk_C01: every batch
+   a size-aligned interval of known rows; watermarks received are (an accepted timestamp) - ooo and increase; a first
+   firing only under a received watermark >= its end, in increasing order, with no row reported before; a re-delivery
+   only with ALLOWEDLATENESS > 0 and equal to the previous contents plus the late row just added; when a watermark has
+   been handled, no on-time row whose interval ended before it is still unreported) accepts EVERY trace of the model:
+   all histories of atomic steps with distinct row ids, non-negative timestamps, one wall clock, idle mechanism off *)
+Theorem C01_model_passes_checker : forall c base h,
+  0 < size c -> 0 <= ooo c -> idle c = 0 ->
+  Forall (hist_op_ok base) h -> NoDup (hids h) -> chk_C01 c base (snd (run c st0 h)) = None.
+Proof. intros c base h Hs Ho Hi. exact (model_passes_checker c base Hs Ho Hi h). Qed.
+Print Assumptions C01_model_passes_checker.
 
 (* the executable processing-time checker the harness applies to the real window's trace (Spec/WinSpec.v chk_C01_pt:
    aligned interval holding only its own rows, only known rows, no row twice, increasing intervals, every row of the
